@@ -43,6 +43,7 @@ class C06(Spec):
     groups = ["vpub", "vrender"]
     title = "Rendering any fetched object at any terminal size neither crashes nor hangs"
     raw_compare = False
+    confirm_timing = True
     oracle_filter = {"well_formed_result"}
     rule = ("JSON shaped like and unlike actors, posts, activities, collections and links (wrong types in every field, nested replies, "
             "embedded authors, dead references, huge/negative/fractional numbers, deep nesting) built with NewPost/Actor/Activity/"
@@ -117,6 +118,9 @@ class C06(Spec):
             if len(impl) > BIG_RUNES * len(case.meta["widths"]):
                 return "rendering of %d runes for a %d byte document" % (len(impl), len(case.meta["content"]))
         return None
+
+    def is_timing_reason(self, why):
+        return " ms " in why
 
     def known_key(self, case, res):
         if case.op == "rendernm":
